@@ -127,6 +127,20 @@ def taint_class(ctx, cls):
     return n_uses, tainted_attrs
 
 
+def import_taint(ctx, classes, rule, why):
+    """Re-report R15-TAINT for `classes` under another property's rule name (the time label must not influence ...)."""
+    from ..report import Ctx
+    tmp = Ctx(ctx.prop, ctx.tier, ctx.seed, ctx.model)
+    for cls in classes:
+        if cls in ctx.model.classes:
+            taint_class(tmp, cls)
+    for o in tmp.obligations:
+        ctx.obligations.append(dict(o, rule=rule))
+    for f in tmp.findings:
+        ctx.add_finding(rule, f.file, f.qual, f.construct, "%s: %s" % (why, f.why), f.line)
+    ctx.functions |= tmp.functions
+
+
 def check_taint(ctx):
     total = 0
     tainted_by_cls = {}
